@@ -6,7 +6,7 @@ import indx_common as X
 
 ID = "C10"
 LEAN_MODULES = ["CatiiProps.C10"]
-USES_TRANSLATOR = True
+USES_TRANSLATOR = ['fit_dtype', 'consts']
 RULE = ("exhaustive: arity<=2, <=2 entries, 4 width classes for the largest coordinate x 4 for the common value, row-id "
         "lists from {[], [0], [0, 2^32-1]}; random: arity 1..4, 0..30 entries, magnitudes crossed over the four word "
         "sizes, row-id lists of length 0..40 with values up to 2^32-1, the row-id arrays contiguous or non-contiguous views (step-2 slice, matrix column, reversed view); entries of 2^16-1 .. 2^17+5 row ids mixed with short ones in every order. Non-trivial = at least one entry; distinct by input")
